@@ -13,4 +13,6 @@ pub mod tracing_stubs;
 #[cfg(kani)]
 mod c05_update;
 #[cfg(kani)]
+mod c05_index;
+#[cfg(kani)]
 mod c05_diag;
